@@ -4962,6 +4962,15 @@ class PyCdlib:
                 # original place; the real one will be done below.  Creating
                 # it may refuse the names, so do that before anything else
                 # (like the relocation directory) is created.
+                if not self._rr_moved_record.initialized:
+                    # The relocation directory has to be created; its names
+                    # must be free in the root directory.
+                    moved_name = self._rr_moved_name or b'RR_MOVED'
+                    moved_rr_name = self._rr_moved_rr_name or b'rr_moved'
+                    for child in self.pvd.root_directory_record().children:
+                        if child.file_ident == moved_name or \
+                           (child.rock_ridge is not None and not child.is_dot() and not child.is_dotdot() and child.rock_ridge.name() == moved_rr_name):
+                            raise pycdlibexception.PyCdlibInvalidInput('The name of the Rock Ridge relocation directory is already in use')
                 fake_dir_rec = dr.DirectoryRecord()
                 fake_dir_rec.new_dir(self.pvd, name, parent,
                                      self.pvd.sequence_number(),
